@@ -349,6 +349,13 @@ class Translator:
         self.errors = []
         self.used_safe = set()
         self.unsafe_sites = []
+        self._canon_cache = {}
+        self.canon_seen = {}     # normal form -> literal text, for the sites matched literally (written out by --write-canon)
+        try:
+            import json
+            self.canon_table = json.load(open(os.path.join(os.path.dirname(os.path.abspath(__file__)), 'safe_sites_canon.json')))
+        except (OSError, ValueError):
+            self.canon_table = {}
         self.used_prims = set()
         self.used_classes = []   # source-level dotted class names, in first-use order
         self.notes = []
@@ -466,11 +473,80 @@ class Translator:
             return SKIP
         return ('prim', name)
 
-    def safe(self, sc, kind, text):
-        k = (sc.key.defname, kind, text)
+    # ---- alpha-normalised site texts: a consistent rename of locals / private attributes must not lose a SAFE_SITES entry ----
+    def _rename_maps(self, key):
+        """(locals of the function -> v<k>, private attributes of its class -> _f<k>), numbered in order of first occurrence"""
+        ck = ('canon', id(key.fn), id(key.cls))
+        if ck not in self._canon_cache:
+            loc = {}
+            if key.fn is not None:
+                a = key.fn.args
+                for p in list(a.posonlyargs) + list(a.args) + ([a.vararg] if a.vararg else []) + list(a.kwonlyargs) + \
+                        ([a.kwarg] if a.kwarg else []):
+                    if p.arg != 'self':
+                        loc.setdefault(p.arg, 'v%d' % len(loc))
+                for n in ast.walk(key.fn):
+                    if isinstance(n, ast.Name) and isinstance(n.ctx, (ast.Store, ast.Del)):
+                        loc.setdefault(n.id, 'v%d' % len(loc))
+                    elif isinstance(n, ast.ExceptHandler) and n.name:
+                        loc.setdefault(n.name, 'v%d' % len(loc))
+            priv = {}
+            if key.cls is not None:
+                for n in ast.walk(key.cls.node):
+                    if isinstance(n, ast.Attribute) and isinstance(n.value, ast.Name) and n.value.id == 'self' and \
+                            n.attr.startswith('_') and not n.attr.startswith('__'):
+                        priv.setdefault(n.attr, '_f%d' % len(priv))
+            self._canon_cache[ck] = (loc, priv)
+        return self._canon_cache[ck]
+
+    def canon_text(self, key, text):
+        import io
+        import tokenize
+        loc, priv = self._rename_maps(key)
+        try:
+            toks = list(tokenize.generate_tokens(io.StringIO(text).readline))
+        except (tokenize.TokenError, IndentationError, SyntaxError):
+            return None
+        out = []
+        for i, t in enumerate(toks):
+            v = t.string
+            if t.type == tokenize.NAME:
+                prev = toks[i - 1].string if i else ''
+                prev2 = toks[i - 2].string if i > 1 else ''
+                if prev == '.':
+                    if prev2 == 'self' and v in priv:
+                        v = priv[v]
+                elif v in loc:
+                    v = loc[v]
+            if t.type in (tokenize.NEWLINE, tokenize.NL, tokenize.ENDMARKER, tokenize.INDENT, tokenize.DEDENT):
+                continue
+            out.append(v)
+        return ' '.join(out)
+
+    def safe_lookup(self, key, kind, text):
+        """the SAFE_SITES key this site stands for: the literal text, or - after a consistent rename of locals / private
+        attributes - the entry of the committed alpha-normalised table (safe_sites_canon.json) with the same normal form"""
+        k = (key.defname, kind, text)
+        base = text.rsplit('#', 1) if kind == 'noraise' else [text]
+        ct = self.canon_text(key, base[0])
+        if ct is not None and kind == 'noraise':
+            ct = '%s#%s' % (ct, base[1])
         if k in T.SAFE_SITES:
+            if ct is not None:
+                self.canon_seen['%s|%s|%s' % (key.defname, kind, ct)] = text
+            return k
+        if ct is not None:
+            raw = self.canon_table.get('%s|%s|%s' % (key.defname, kind, ct))
+            if raw is not None and (key.defname, kind, raw) in T.SAFE_SITES:
+                return (key.defname, kind, raw)
+        return None
+
+    def safe(self, sc, kind, text):
+        k = self.safe_lookup(sc.key, kind, text)
+        if k is not None:
             self.used_safe.add(k)
             return True
+        k = (sc.key.defname, kind, text)
         if k not in self.unsafe_sites:
             self.unsafe_sites.append(k)
         return False
@@ -1507,9 +1583,10 @@ class Translator:
         now = seq(*arg_now)
         txt0 = ast.unparse(call.func)
         sc.call_counts[txt0] = sc.call_counts.get(txt0, 0) + 1
-        nr = T.SAFE_SITES.get((sc.key.defname, 'noraise', '%s#%d' % (txt0, sc.call_counts[txt0])))
+        nrk = self.safe_lookup(sc.key, 'noraise', '%s#%d' % (txt0, sc.call_counts[txt0]))
+        nr = T.SAFE_SITES.get(nrk) if nrk is not None else None
         if nr is not None:
-            self.used_safe.add((sc.key.defname, 'noraise', '%s#%d' % (txt0, sc.call_counts[txt0])))
+            self.used_safe.add(nrk)
             n1, l1 = self.call_resolved(sc, call, r, now, deferred_args)
             if l1 is not None:
                 self.fail(sc, call, 'noraise on a deferred call')
@@ -2007,4 +2084,4 @@ def translate(repo, class_dump):
     meta = {'functions': sorted(tr.funs), 'entries': entries, 'handled': handled,
             'safe_sites_used': len(tr.used_safe), 'safe_sites_stale': ['%s|%s|%s' % k for k in stale],
             'prims_used': sorted(tr.used_prims), 'unsafe_sites': tr.unsafe_sites, 'fid': pr.fid, 'cid': pr.cid, 'alias': alias, 'mro': mro}
-    return {'text': text, 'errors': errors, 'meta': meta, 'funs': tr.funs}
+    return {'text': text, 'errors': errors, 'meta': meta, 'funs': tr.funs, 'canon_seen': tr.canon_seen}
